@@ -183,6 +183,11 @@ def histories(draw):
                 step["pars"] = dict(step["pars"], radius_effective_mode=0)
                 if "@" in m:
                     step["pars"].setdefault("radius_effective", 55.0)
+            if step["op"] == "sasview" and not step.get("array") and draw(st.integers(0, 3)) == 0:
+                # a brand-new object of the same model class, used with its dispersity settings left alone: it
+                # starts from the documented defaults whatever was done to earlier objects of that class
+                step["pars"] = {k_: v_ for k_, v_ in step["pars"].items() if "." not in k_}
+                step["new_instance"] = True
             steps.append(step)
         elif kind in ("make_kernel", "release_kernel"):
             qs = draw(st.sampled_from([Q1, Q2, QXY]))
@@ -225,7 +230,8 @@ def run_driver(steps):
 
 
 def request_key(step):
-    return {k: v for k, v in step.items() if k not in ("clone", "fresh", "empty_mesh", "target", "noset", "relayout")}
+    return {k: v for k, v in step.items() if k not in ("clone", "fresh", "empty_mesh", "target", "noset", "relayout",
+                                                       "new_instance")}
 
 
 def oracle(step):
@@ -295,6 +301,8 @@ def check_history(case, rec):
             rec.cls("dispersity")
         if step.get("relayout"):
             rec.cls("dispersity-layout-changed")
+        if step.get("new_instance"):
+            rec.cls("new-object-of-same-class")
         key = digest(request_key(step))
         prev = seen.setdefault(step["model"], set())
         if prev - {key}:
